@@ -28,10 +28,55 @@ CHECKS = {
     "C02": (E1, "stateless model checking of the real code: exhaustive deviation-bounded enumeration of schedules of the caller against the executing worker/detached thread, for every controller script; exactly-once, value, happens-before race and quarantine lifetime oracles on every execution",
             "schedule(), async() and AsyncTask<T> (int, heap-owning std::string, lifetime-instrumented payload) are executed on the real headers and the real enkiTS scheduler under every schedule up to the completed deviation bound, for the internal backend with 2 and with 1 pool threads, the std::thread based OpenMP configuration and the serial debug backend; every {finished,get,wait} script up to length 3 followed by destruction. The property is about a window a few instructions wide (task start vs. member construction) and about memory touched after release: both need every schedule plus instrumentation, which this gives up to the bound.",
             "Sequential consistency; TBB's own scheduling is not owned (TBB backend not claimed for the schedule quantifier); bursts larger than 3 tasks not covered; bound named in the evidence.", "DESIGN.md 2.1, 4 C02"),
+    "C04": (E3, "bounded-exhaustive input enumeration against the real vec.h overloads: every operand tuple over a per-type value alphabet (A^(2N)) for every overload family x 10 element types x 4 shapes, per-component scalar oracle",
+            "Every overload family of vec.h is executed on every operand tuple of a small alphabet chosen so that all components can differ pairwise, for all element types and shapes, and compared with the scalar definition applied per component under the promotion the overload's return type implies. vec.h has no value-dependent control flow, so the wrong-component / wrong-overload class of defect is decided by such a grid.",
+            "Values outside the alphabet are not covered; float sums and rsqrt/rcp based results are compared with a small ulp tolerance; signed overflow and division by zero excluded as in the statement.", "DESIGN.md 2.3, 4 C04"),
+    "C05": (E3, "bounded-exhaustive input enumeration: every box pair x every point of a coordinate grid (dimensions 1-4, int and float), all grid rays and a grid of affine maps, against an exact point-membership / rational slab oracle",
+            "All boxes and points over a 5-value coordinate grid (incl. the default empty box, degenerate, touching, nested, per-axis overlapping) are enumerated for every set operation of range.h/box.h and compared with point membership evaluated exactly; rays and xfmBounds against exact slab intervals and corner images. Boundary inclusivity and per-axis mix-ups only show on inputs exactly on a boundary or differing per axis - a complete small grid contains all of them.",
+            "Inverted boxes other than the default empty box are outside the domain; intersectRayBox compared within the rcp contract (2^-18 relative); grid coordinates only.", "DESIGN.md 2.3, 4 C05"),
+    "C06": (E3, "bounded-exhaustive input enumeration: every 2x2/3x3 matrix over a small entry set with condition number <= 64, every axis x angle pair of a 26 x 49 grid, unit quaternion pairs and slerp factors, against an independent long double re-implementation of the algebra",
+            "Every identity of the statement is evaluated on every grid element for LinearSpace2f/3f/3fa, AffineSpace2f/3f/3fa, quatf and quatd and compared with the same algebra in long double within 32*kappa*eps; all four branches of the matrix-to-quaternion constructor are counted. A sign or index slip changes results by O(1), far above the tolerance.",
+            "Finite grid of a continuum: the claim is 'every grid point'; tolerance derived from the condition number.", "DESIGN.md 2.3, 4 C06"),
+    "C07": (E3, "exhaustive enumeration of all 2^32 float bit patterns (two builds: SIMD and RKCOMMON_NO_SIMD) for the unary kernels against a double-precision oracle; bounded-exhaustive boundary grids for the binary/ternary kernels, the packing functions and the distributions",
+            "rcp, rsqrt, rcp_safe, sign, deg2rad, cvt_uint32 and the sRGB packing are decided for every float there is, in both builds; clamp/divRoundUp/lerp/madd, the vec packing and the random distributions are enumerated over complete boundary-heavy grids (and every 32-bit seed for the first draw). The claim about every float is enumerable, so it is decided by exhaustion rather than sampled.",
+            "rcpss/rsqrtss estimates of this CPU; double 1/x and sqrt as reference; three exotic-range classes of uniform_real_distribution are known findings (known_findings.json).", "DESIGN.md 2.3, 4 C07"),
+    "C08": (E2, "bounded-exhaustive exploration of operation histories on real IntrusivePtr handles against a reference count model under ASan/UBSan, plus stateless model checking (deviation-bounded schedule enumeration, lifetime and race oracles) of threads sharing references",
+            "Every history up to depth 5 (thorough 6) over create/refInc/refDec/copy/move/convert/raw/assign/null/destroy/compare on 2 objects and 3 handle slots is replayed on fresh real objects and useCount(), destruction time and identity comparisons are compared with the model after every step; 2-3 threads copying/assigning/dropping shared references are explored on every schedule up to the completed bound.",
+            "Histories deeper than the bound and more than 3 threads are not covered; sequential consistency for the threaded unit.", "DESIGN.md 2.1, 2.2, 4 C08"),
+    "C09": (E2, "bounded-exhaustive exploration of operation histories on real Optional<T>/Any objects (payloads int, std::string, lifetime-instrumented, over-aligned placements) against value-type reference models, in forked shards under ASan/UBSan with crash attribution",
+            "Every history up to depth 4 (thorough 5) over the full alphabet of constructors, assignments (engaged and empty sources, converting forms), emplace/reset/value_or/comparisons is replayed on fresh objects; has_value/value, copy independence, exception behaviour and the payload lifetime registry are checked after every step. Lifetime errors with trivial payloads have no visible effect - they need the instrumented payload plus every engaged/empty combination, which histories enumerate.",
+            "Depth bound; payload types listed in the evidence.", "DESIGN.md 2.2, 4 C09"),
+    "C10": (E2, "bounded-exhaustive exploration of operation histories on real FlatMap / ParameterizedObject against an insertion-ordered reference map, step-by-step comparison of every return value, exception and the full ordered contents",
+            "Every history up to depth 6 (thorough 7) over 3 keys x 2 values (and parameter names x 3 types) is replayed on fresh real containers and compared with a vector-of-pairs model after every step, including order after erase, duplicate suppression, type change of a parameter and the query flag.",
+            "Depth and alphabet bound.", "DESIGN.md 2.2, 4 C10"),
+    "C11": (E2, "bounded-exhaustive exploration of operation histories on real array wrappers (construct/assign/reset/resize/copy/destroy of wrappers and of their source buffers) against a contents model, every element read under ASan after every step",
+            "Every history up to depth 4 (thorough 5) over ArrayView, OwnedArray, FixedArray, FixedArrayView and DataView operations incl. copy-then-destroy-original and reallocating resize is replayed; size/data/at/iteration and every element are compared with the model, and ASan turns any dangling pointer into a report attributed to the history.",
+            "Depth bound; element types of size 1/2/4/8.", "DESIGN.md 2.2, 4 C11"),
+    "C14": (E2, "bounded-exhaustive exploration of allocation histories (alignedMalloc/alignedFree over a boundary-heavy size x alignment set, AlignedVector operation sequences) against a live-block pattern model, two allocator back ends",
+            "Every history up to depth 5 (thorough 6) of malloc/free over 10 sizes x 13 alignments and 3 slots, and of AlignedVector operations for 5 element sizes, is executed on the real code for both back ends (TBB scalable allocator, _mm_malloc under ASan); alignment, usability of the full extent, pattern integrity, disjointness and the length_error contract are checked after every step.",
+            "Depth bound; allocator internals beyond what patterns/ASan can see are trusted.", "DESIGN.md 2.2, 4 C14"),
+    "C15": (E2, "bounded-exhaustive exploration of typed value sequences, of every truncation point of each stream, and of raw cursor / FixedBufferWriter operation histories against byte-exact reference models under ASan",
+            "Every sequence up to length 3 (thorough 4) over a value alphabet covering every streaming overload is written, size-predicted and read back; every prefix of every stream is read from an exactly-sized buffer (must throw, ASan silent); every history of read/getView sizes incl. SIZE_MAX and of write/reserve against capacities 0..6 is compared with the cursor model.",
+            "Sequence length and alphabet bound.", "DESIGN.md 2.2, 4 C15"),
+    "C16": (E3, "exhaustive enumeration of all byte strings up to length 6 (thorough 7) over a 12-symbol XML alphabet, of all small document trees and of every truncation / single-byte substitution of those documents, through the public file reader under ASan with a hang oracle",
+            "readXML is executed on every short byte string over the characters its scanner branches on, on every generated tree of the documented subset (compared node by node), and on every truncation and every one-byte mutation of those documents; totality (returns or std::runtime_error), memory safety (ASan, buffer of exactly numBytes+1) and termination are checked on each.",
+            "Strings longer than 7 bytes only as mutations of generated documents (<= 60 bytes); nesting depth bounded by construction.", "DESIGN.md 2.3, 4 C16"),
+    "C17": (E3, "exhaustive enumeration of every extent up to 5^3 (every coordinate and index), a grid of large extents against an __int128 oracle, all sub-regions for for_each and all shifts / clip boxes / slice counts for the Array3D adaptors",
+            "flatten/reshape/longIndex/coordsOf are checked to be mutually inverse bijections in flattened order on every coordinate of every small extent and on boundary coordinates of extents whose products exceed 2^31, 2^32 and 2^62; iteration visits each coordinate once in order; every adaptor returns the cell its definition names for every coordinate incl. out-of-range ones; getValueRange equals brute-force min/max.",
+            "Extent bounds as stated in the evidence.", "DESIGN.md 2.3, 4 C17"),
+    "C19": (E2, "bounded-exhaustive exploration of create/destroy/notify/poll histories on real Observable/Observer objects against a pending-flag model under ASan, plus stateless model checking (deviation-bounded schedule enumeration) of concurrent TimeStamp creation/renewal",
+            "Every history up to depth 6 (thorough 7) over 2 observables and 3 observer slots incl. both destruction orders is replayed and wasNotified() compared with the model at every poll; 2-4 threads creating/renewing/copying TimeStamps are explored on every schedule up to the completed bound and all gathered values must be pairwise distinct and per-thread increasing.",
+            "Depth bound; sequential consistency for the threaded unit.", "DESIGN.md 2.1, 2.2, 4 C19"),
+    "C20": (E3, "exhaustive enumeration of image sizes x formats x fill patterns with exactly-sized input buffers under ASan and an independent decoder; bounded-exhaustive enumeration of well-nested trace event sequences, chunk-boundary lengths and thread counts with a strict JSON parser as oracle",
+            "Every (w,h) in [1,4]^2 x every writer x 256 fill patterns is written and decoded independently; every well-nested event sequence up to length 6 plus the chunk-edge lengths, nesting depths 0..4 and 1..8 recording threads is saved and the file parsed strictly: per thread exactly the recorded events in order with matching begin/end nesting.",
+            "Pixel values beyond the fill patterns are not enumerated (the writers copy bytes without value-dependent control flow); image sizes up to 4x4.", "DESIGN.md 2.2, 2.3, 4 C20"),
     "C18": (E3, "bounded-exhaustive input enumeration against the real functions: every string/argument vector/URL component list of a declared finite space, independent naive oracle per case",
             "Every string up to length 6 (thorough 8) over alphabets that make delimiters, dots, separators and 0/1-character tokens frequent, every small URL / path / argv, and every decade and branch-constant neighbourhood of the pretty printers is executed against the real code under ASan/UBSan and compared with naive definitions of the decomposition laws. Exhaustive over the declared space; says nothing beyond it.",
             "The naive oracles are the intended definitions; longer strings behave like shorter ones (the code has no length-dependent control flow beyond token length 0/1/2).", "DESIGN.md 2.3, 4 C18"),
 }
+
+# properties whose check has been built, run end to end on the current tree and reviewed
+ENABLED = {"C01", "C02", "C03", "C07", "C12", "C13", "C18"}
 
 REASON_PENDING = "check under construction in this session (harness not yet registered); see DESIGN.md section 4"
 
@@ -62,7 +107,7 @@ def main():
     }
     for p in props:
         pid = p["id"]
-        if pid in CHECKS:
+        if pid in CHECKS and pid in ENABLED:
             eng, tech, text, note, ref = CHECKS[pid]
             m["checks"].append({
                 "property_id": pid,
